@@ -816,7 +816,7 @@ Qed.
 (* ---- rendered lines ---- *)
 Lemma numchar_tokchar c : numchar c = true -> tokchar c = true.
 Proof.
-  unfold numchar, tokchar, is_delim, is_digit, c_dot, c_plus, c_minus, c_sp, c_tab, c_nl, c_cr. intros H. lia.
+  unfold numchar, tokchar, is_delim, is_splitlines_sep, is_digit, c_dot, c_plus, c_minus, c_sp, c_tab. intros H. lia.
 Qed.
 Lemma numchars_tokchars t : forallb numchar t = true -> forallb tokchar t = true.
 Proof.
@@ -854,7 +854,7 @@ Proof.
   destruct t as [|c0 t0]; [discriminate|]. cbn [good_tok]. generalize (c0 :: t0). clear.
   induction l as [|c t IH]; intros H; [split; reflexivity|].
   cbn [forallb] in H. apply andb_true_iff in H. destruct H as [Hc Ht]. destruct (IH Ht) as [I1 I2].
-  unfold tokchar in Hc. cbn [no_nl forallb existsb]. fold (no_nl t). rewrite I1, I2.
+  unfold tokchar, is_splitlines_sep in Hc. cbn [no_nl forallb existsb]. fold (no_nl t). rewrite I1, I2.
   unfold c_cr, c_nl in *. split; lia.
 Qed.
 
@@ -976,6 +976,70 @@ Qed.
 Lemma number_from_map {B C} (f : B -> C) : forall l i, number_from i (map f l) = map (fun p => (fst p, f (snd p))) (number_from i l).
 Proof. induction l as [|x l IH]; intros i; [reflexivity|]. cbn. rewrite IH. reflexivity. Qed.
 
+Lemma frame_of_records_render : forall (labels : list text) (lw : bool) (rows : list (list wnum)),
+    (forall r, In r rows -> length r = length labels /\ row_ok lw r = true) ->
+    forallb (col_homogeneous rows) (seq 0 (length labels)) = true ->
+    frame_of_records labels (map (map wnum_text) rows) = ROk (mkFrame labels (number_from 0 (map (map wcell) rows))).
+Proof.
+  intros labels lw rows Hrow Hcols.
+  set (R := map (map wnum_text) rows).
+  set (n := length labels).
+  assert (HRlen : forall r, In r R -> length r = n).
+  { intros r Hin. unfold R in Hin. apply in_map_iff in Hin. destruct Hin as [r0 [E Hin]]. subst r.
+    rewrite map_length. apply Hrow. exact Hin. }
+  assert (Hover : existsb (fun r => n <? length r) R = false).
+  { destruct (existsb (fun r => n <? length r) R) eqn:E; [|reflexivity].
+    apply existsb_exists in E. destruct E as [r [Hin E]]. rewrite (HRlen r Hin) in E. apply Nat.ltb_lt in E. lia. }
+  (* classification of every token *)
+  assert (Hcls : forall r j, In r rows -> j < n ->
+            nth_tok (map wnum_text r) j = Some (wnum_text (nth j r (WStr []))) /\
+            exists w, wnum_ok w (nth j r (WStr [])) = true).
+  { intros r j Hin Hj. destruct (Hrow r Hin) as [Hl Hok]. split.
+    - unfold nth_tok. rewrite nth_error_map. rewrite (nth_error_nth' r (WStr [])) by lia. reflexivity.
+    - apply (row_ok_nth lw); [exact Hok|lia]. }
+  assert (Hweird : existsb (col_is_weird R) (seq 0 n) = false).
+  { destruct (existsb (col_is_weird R) (seq 0 n)) eqn:E; [|reflexivity].
+    apply existsb_exists in E. destruct E as [j [Hj E]]. apply in_seq in Hj.
+    unfold col_is_weird in E. apply existsb_exists in E. destruct E as [r [Hin E]].
+    unfold R in Hin. apply in_map_iff in Hin. destruct Hin as [r0 [E0 Hin]]. subst r.
+    destruct (Hcls r0 j Hin) as [Ht [w Hw]]; [lia|]. rewrite Ht in E. rewrite (classify_wnum w _ Hw) in E.
+    rewrite wnum_class_not_weird in E. discriminate. }
+  assert (Hstr : forall r j, In r rows -> j < n -> col_is_str R j = is_wstr (nth j r (WStr []))).
+  { intros r j Hin Hj.
+    assert (Hc : col_is_str R j = existsb (fun r0 => is_wstr (nth j r0 (WStr []))) rows).
+    { unfold col_is_str, R. clear - Hcls Hj. induction rows as [|r0 rows IH]; [reflexivity|].
+      cbn [map existsb]. destruct (Hcls r0 j (or_introl eq_refl) Hj) as [Ht [w Hw]]. rewrite Ht.
+      rewrite (classify_wnum w _ Hw), wnum_class_str. f_equal. apply IH. intros r1 j1 Hin1. apply Hcls. right. exact Hin1. }
+    rewrite Hc. rewrite forallb_forall in Hcols. specialize (Hcols j). 
+    assert (Hjs : In j (seq 0 (length labels))) by (apply in_seq; fold n; lia).
+    specialize (Hcols Hjs). unfold col_homogeneous in Hcols. apply orb_true_iff in Hcols.
+    destruct Hcols as [Hall|Hnone].
+    - rewrite forallb_forall in Hall. rewrite (Hall r Hin).
+      apply existsb_exists. exists r. split; [exact Hin|apply Hall; exact Hin].
+    - rewrite forallb_forall in Hnone. pose proof (Hnone r Hin) as Hr. apply negb_true_iff in Hr. rewrite Hr.
+      destruct (existsb (fun r0 => is_wstr (nth j r0 (WStr []))) rows) eqn:E; [|reflexivity].
+      apply existsb_exists in E. destruct E as [r1 [Hin1 E1]]. specialize (Hnone r1 Hin1). rewrite E1 in Hnone. discriminate. }
+  assert (Hcells : map (fun r => map (fun j => cell_of (col_is_str R j) (nth_tok r j)) (seq 0 n)) R = map (map wcell) rows).
+  { unfold R at 2. rewrite map_map. apply map_ext_in. intros r Hin.
+    destruct (Hrow r Hin) as [Hl Hok].
+    apply (list_eq_nth CNaN).
+    - rewrite !map_length, seq_length. symmetry. exact Hl.
+    - intros k Hk. rewrite map_length, seq_length in Hk.
+      rewrite (nth_indep _ CNaN (cell_of (col_is_str R 0) (nth_tok (map wnum_text r) 0))) by (rewrite map_length, seq_length; exact Hk).
+      rewrite (map_nth (fun j => cell_of (col_is_str R j) (nth_tok (map wnum_text r) j)) (seq 0 n) 0 k).
+      rewrite seq_nth by exact Hk. cbn [plus].
+      destruct (Hcls r k Hin Hk) as [Ht [w Hw]]. rewrite Ht. rewrite (Hstr r k Hin Hk).
+      rewrite (cell_of_wnum w _ Hw).
+      rewrite (nth_indep _ CNaN (wcell (WStr []))) by (rewrite map_length; lia).
+      rewrite (map_nth wcell r (WStr []) k). reflexivity. }
+  unfold frame_of_records. fold n.
+  destruct R as [|r0 R'] eqn:ER.
+  - destruct rows as [|x xs]; [reflexivity|discriminate].
+  - assert (Hr0 : (n <? length r0) = false).
+    { apply Nat.ltb_ge. rewrite (HRlen r0) by (left; reflexivity). lia. }
+    rewrite Hr0. fold n. rewrite Hover, Hweird. rewrite Hcells. reflexivity.
+Qed.
+
 Theorem read_frame_render_lemma : forall t, wbody_ok t = true -> read_frame (render_body t) = ROk (frame_of_wtable t).
 Proof.
   intros t H. unfold wbody_ok in H.
@@ -1007,62 +1071,8 @@ Proof.
     - apply forallb_forall. intros l Hin. apply in_map_iff in Hin. destruct Hin as [r [E Hin]]. subst l.
       destruct (Hrow r Hin) as [_ Hok]. destruct (render_cells_tokens lw r Hok) as [_ [[A _] _]]. exact A. }
   unfold read_frame. rewrite Hrec. rewrite Hdup.
-  set (R := map (map wnum_text) rows).
-  set (n := length labels).
-  assert (HRlen : forall r, In r R -> length r = n).
-  { intros r Hin. unfold R in Hin. apply in_map_iff in Hin. destruct Hin as [r0 [E Hin]]. subst r.
-    rewrite map_length. apply Hrow. exact Hin. }
-  assert (Hover : existsb (fun r => n <? length r) R = false).
-  { destruct (existsb (fun r => n <? length r) R) eqn:E; [|reflexivity].
-    apply existsb_exists in E. destruct E as [r [Hin E]]. rewrite (HRlen r Hin) in E. apply Nat.ltb_lt in E. lia. }
-  (* classification of every token *)
-  assert (Hcls : forall r j, In r rows -> j < n ->
-            nth_tok (map wnum_text r) j = Some (wnum_text (nth j r (WStr []))) /\
-            exists w, wnum_ok w (nth j r (WStr [])) = true).
-  { intros r j Hin Hj. destruct (Hrow r Hin) as [Hl Hok]. split.
-    - unfold nth_tok. rewrite nth_error_map. rewrite (nth_error_nth' r (WStr [])) by lia. reflexivity.
-    - apply (row_ok_nth lw); [exact Hok|lia]. }
-  assert (Hweird : existsb (col_is_weird R) (seq 0 n) = false).
-  { destruct (existsb (col_is_weird R) (seq 0 n)) eqn:E; [|reflexivity].
-    apply existsb_exists in E. destruct E as [j [Hj E]]. apply in_seq in Hj.
-    unfold col_is_weird in E. apply existsb_exists in E. destruct E as [r [Hin E]].
-    unfold R in Hin. apply in_map_iff in Hin. destruct Hin as [r0 [E0 Hin]]. subst r.
-    destruct (Hcls r0 j Hin) as [Ht [w Hw]]; [lia|]. rewrite Ht in E. rewrite (classify_wnum w _ Hw) in E.
-    rewrite wnum_class_not_weird in E. discriminate. }
-  assert (Hstr : forall r j, In r rows -> j < n -> col_is_str R j = is_wstr (nth j r (WStr []))).
-  { intros r j Hin Hj.
-    assert (Hc : col_is_str R j = existsb (fun r0 => is_wstr (nth j r0 (WStr []))) rows).
-    { unfold col_is_str, R. clear - Hcls Hj. induction rows as [|r0 rows IH]; [reflexivity|].
-      cbn [map existsb]. destruct (Hcls r0 j (or_introl eq_refl) Hj) as [Ht [w Hw]]. rewrite Ht.
-      rewrite (classify_wnum w _ Hw), wnum_class_str. f_equal. apply IH. intros r1 j1 Hin1. apply Hcls. right. exact Hin1. }
-    rewrite Hc. rewrite forallb_forall in Hcols. specialize (Hcols j). 
-    assert (Hjs : In j (seq 0 (length labels))) by (apply in_seq; fold n; lia).
-    specialize (Hcols Hjs). unfold col_homogeneous in Hcols. fold rows in Hcols. apply orb_true_iff in Hcols.
-    destruct Hcols as [Hall|Hnone].
-    - rewrite forallb_forall in Hall. rewrite (Hall r Hin).
-      apply existsb_exists. exists r. split; [exact Hin|apply Hall; exact Hin].
-    - rewrite forallb_forall in Hnone. pose proof (Hnone r Hin) as Hr. apply negb_true_iff in Hr. rewrite Hr.
-      destruct (existsb (fun r0 => is_wstr (nth j r0 (WStr []))) rows) eqn:E; [|reflexivity].
-      apply existsb_exists in E. destruct E as [r1 [Hin1 E1]]. specialize (Hnone r1 Hin1). rewrite E1 in Hnone. discriminate. }
-  assert (Hcells : map (fun r => map (fun j => cell_of (col_is_str R j) (nth_tok r j)) (seq 0 n)) R = map (map wcell) rows).
-  { unfold R at 2. rewrite map_map. apply map_ext_in. intros r Hin.
-    destruct (Hrow r Hin) as [Hl Hok].
-    apply (list_eq_nth CNaN).
-    - rewrite !map_length, seq_length. symmetry. exact Hl.
-    - intros k Hk. rewrite map_length, seq_length in Hk.
-      rewrite (nth_indep _ CNaN (cell_of (col_is_str R 0) (nth_tok (map wnum_text r) 0))) by (rewrite map_length, seq_length; exact Hk).
-      rewrite (map_nth (fun j => cell_of (col_is_str R j) (nth_tok (map wnum_text r) j)) (seq 0 n) 0 k).
-      rewrite seq_nth by exact Hk. cbn [plus].
-      destruct (Hcls r k Hin Hk) as [Ht [w Hw]]. rewrite Ht. rewrite (Hstr r k Hin Hk).
-      rewrite (cell_of_wnum w _ Hw).
-      rewrite (nth_indep _ CNaN (wcell (WStr []))) by (rewrite map_length; lia).
-      rewrite (map_nth wcell r (WStr []) k). reflexivity. }
   unfold frame_of_wtable. fold labels. fold rows.
-  destruct R as [|r0 R'] eqn:ER.
-  - destruct rows as [|x xs]; [reflexivity|discriminate].
-  - assert (Hr0 : (n <? length r0) = false).
-    { apply Nat.ltb_ge. rewrite (HRlen r0) by (left; reflexivity). lia. }
-    rewrite Hr0. fold n. rewrite Hover, Hweird. rewrite Hcells. reflexivity.
+  apply (frame_of_records_render labels lw rows Hrow Hcols).
 Qed.
 
 (* ================================================================================================ *)
@@ -1182,17 +1192,6 @@ Proof.
   - rewrite IH. reflexivity.
 Qed.
 
-Theorem iter_df_printed_iterations : forall g,
-    g_has_iter0 g = true -> g_final_obj_eq_last g = true ->
-    get_iter_df g = ROk (mkFrame (f_cols g) (filter (fun ir => cell_ge0 (iter_cell g (snd ir))) (f_rows g))).
-Proof.
-  intros g H0 HF. unfold get_iter_df. unfold g_has_iter0 in H0. rewrite H0. cbn [negb andb].
-  unfold g_final_obj_eq_last in HF.
-  destruct (last_opt (rows_with g code_final)) as [[i1 rf]|]; [|discriminate].
-  destruct (last_opt (filter (fun ir => cell_ge0 (iter_cell g (snd ir))) (f_rows g))) as [[i2 rl]|]; [|discriminate].
-  apply negb_true_iff in HF. rewrite HF. reflexivity.
-Qed.
-
 Lemma last_opt_In {A} : forall (l : list A) x, last_opt l = Some x -> In x l.
 Proof.
   induction l as [|y l IH]; intros x H; [discriminate|]. destruct l as [|z l'].
@@ -1200,20 +1199,37 @@ Proof.
   - right. apply IH. exact H.
 Qed.
 
+Theorem iter_df_printed_iterations : forall g,
+    g_final_obj_eq_last g = true ->
+    get_iter_df g = ROk (mkFrame (f_cols g) (filter (fun ir => cell_ge0 (iter_cell g (snd ir))) (f_rows g))).
+Proof.
+  intros g HF. unfold get_iter_df.
+  unfold g_final_obj_eq_last in HF.
+  destruct (last_opt (rows_with g code_final)) as [[i1 rf]|]; [|discriminate].
+  destruct (last_opt (filter (fun ir => cell_ge0 (iter_cell g (snd ir))) (f_rows g))) as [[i2 rl]|] eqn:EL; [|discriminate].
+  (* a non-negative iteration is printed: the branch for final-row-only tables is not taken *)
+  assert (Hnn : existsb cell_ge0 (col_cells g s_ITERATION) = true).
+  { apply last_opt_In in EL. apply filter_In in EL. destruct EL as [Hin Hge]. cbn [snd] in Hge.
+    apply existsb_exists. exists (iter_cell g rl). split; [|exact Hge].
+    unfold col_cells. apply in_map_iff. exists (i2, rl). split; [reflexivity|exact Hin]. }
+  rewrite Hnn. cbn [negb andb].
+  apply negb_true_iff in HF. rewrite HF. reflexivity.
+Qed.
+
 (* a single estimation table (no design optimality) whose frame is well formed *)
 Theorem ofv_designated_lemma : forall t g c entries,
     design_of t = None ->
     ext_data_frame (tb_frame t) = ROk g ->
-    g_has_iter0 g = true -> g_final_obj_eq_last g = true ->
+    g_final_obj_eq_last g = true ->
     parse_ofv [t] = ROk (c, entries) ->
     (* the reported objective value is the OBJ of the row carrying -1000000000 *)
     get_ofv g code_final = ROk c.
 Proof.
-  intros t g c entries Hd Hg H0 HF H.
+  intros t g c entries Hd Hg HF H.
   unfold parse_ofv, est_tables in H. cbn [number_from filter snd] in H. rewrite Hd in H.
   cbn [rmap rbind fst snd] in H. unfold iter_frame in H. rewrite Hg in H. cbn [rbind] in H.
   destruct (has_str (col_cells g s_OBJ)); [discriminate|].
-  rewrite (iter_df_printed_iterations g H0 HF) in H. cbn [rbind last_opt flat_map app] in H.
+  rewrite (iter_df_printed_iterations g HF) in H. cbn [rbind last_opt flat_map app] in H.
   rewrite app_nil_r in H. cbn [f_rows f_cols] in H.
   unfold g_final_obj_eq_last in HF.
   destruct (last_opt (rows_with g code_final)) as [[i1 rf]|] eqn:L1; [|discriminate].
@@ -2315,200 +2331,6 @@ Proof.
   rewrite split_from_nontable by exact HL. apply split_from_groups; [exact Hgs|discriminate].
 Qed.
 
-Definition tll (t : wtable) (core : text) : list text := core :: label_line t :: body_lines t 0 (w_rows t).
-
-Lemma body_lines_In : forall t rows i l, In l (body_lines t i rows) ->
-    l = label_line t \/ exists r, In r rows /\ l = render_cells (w_lastwide t) r.
-Proof.
-  intros t. induction rows as [|r rows IH]; intros i l H; [contradiction|].
-  cbn [body_lines] in H. apply in_app_or in H. destruct H as [H|H].
-  - destruct (repeat_here t i); [|contradiction]. destruct H as [H|[]]. left. symmetry. exact H.
-  - destruct H as [H|H].
-    + right. exists r. split; [left; reflexivity|symmetry; exact H].
-    + destruct (IH (S i) l H) as [A|[r0 [A B]]]; [left; exact A|right; exists r0; split; [right; exact A|exact B]].
-Qed.
-
-Lemma space_line_not_table : forall l, space_start l -> is_table_line (addnl l) = false.
-Proof. intros l [r E]. subst l. reflexivity. Qed.
-
-Lemma wbody_parts : forall t, wbody_ok t = true ->
-    w_showlabels t = true /\ w_repeat t = 0 /\ w_labels t <> [] /\ labels_ok (w_labels t) = true /\
-    (forall r, In r (w_rows t) -> length r = length (w_labels t) /\ row_ok (w_lastwide t) r = true).
-Proof.
-  intros t H. unfold wbody_ok in H. repeat (apply andb_true_iff in H; destruct H as [H ?]).
-  apply Nat.eqb_eq in H5. repeat split; try assumption.
-  - destruct (w_labels t); [discriminate|discriminate].
-  - rewrite forallb_forall in H1. specialize (H1 r H6). apply andb_true_iff in H1. apply Nat.eqb_eq. apply H1.
-  - rewrite forallb_forall in H1. specialize (H1 r H6). apply andb_true_iff in H1. apply H1.
-Qed.
-
-Lemma table_structure : forall sfx t, wtable_ok sfx t = true ->
-    exists ti core, w_title t = Some ti /\ wtitle_ok ti = true /\ render_title ti = addnl core /\
-      render_wtable t = concat (map addnl (tll t core)) /\
-      (forall l, In l (tll t core) -> clean l) /\
-      group_ok (map addnl (tll t core)).
-Proof.
-  intros sfx t H. unfold wtable_ok in H. apply andb_true_iff in H. destruct H as [H Hs].
-  apply andb_true_iff in H. destruct H as [Ht Hb].
-  destruct (w_title t) as [ti|] eqn:Eti; [|discriminate].
-  destruct (title_line_shape ti Ht) as [core [Ec [Cc Sc]]].
-  destruct (wbody_parts _ Hb) as [Hshow [_ [Hne [Hlab Hrows]]]].
-  cbn [with_repeat w_showlabels w_labels w_rows w_lastwide] in Hshow, Hne, Hlab, Hrows.
-  exists ti, core. split; [reflexivity|]. split; [exact Ht|]. split; [exact Ec|].
-  destruct (render_labels_tokens (w_labels t) Hlab) as [_ Clab].
-  assert (Cll : clean (label_line t)).
-  { unfold label_line. change (c_sp :: render_labels_aux (w_labels t)) with ([c_sp] ++ render_labels_aux (w_labels t)).
-    apply clean_app; [split; reflexivity|exact Clab]. }
-  assert (Hbl : forall l, In l (body_lines t 0 (w_rows t)) -> clean l /\ space_start l).
-  { intros l Hin. destruct (body_lines_In t _ _ l Hin) as [A|[r [A B]]].
-    - subst l. split; [exact Cll|]. unfold label_line. eexists; reflexivity.
-    - subst l. destruct (Hrows r A) as [Hlen Hok]. destruct (render_cells_tokens (w_lastwide t) r Hok) as [_ [C S]].
-      split; [exact C|]. apply S. intro E. subst r. cbn in Hlen. destruct (w_labels t); [congruence|discriminate]. }
-  split; [|split].
-  - unfold render_wtable. rewrite Eti, Hshow, Ec. unfold tll. cbn [map concat].
-    rewrite render_rows_lines. unfold render_labels, addnl, label_line. cbn [app]. rewrite <- !app_assoc. reflexivity.
-  - intros l [E|[E|Hin]]; [subst l; exact Cc|subst l; exact Cll|apply Hbl; exact Hin].
-  - unfold group_ok, tll. cbn [map]. eexists; eexists. split; [reflexivity|]. split.
-    + unfold is_table_line, addnl. clear - Sc. revert Sc. generalize s_TABLE_NO_dot. intros p. revert core.
-      induction p as [|a p IH]; intros core Sc; [reflexivity|]. destruct core as [|c core]; [discriminate|].
-      cbn [starts_with app] in *. apply andb_true_iff in Sc. destruct Sc as [A B]. rewrite A. apply IH. exact B.
-    + constructor; [apply space_line_not_table; unfold label_line; eexists; reflexivity|].
-      apply Forall_forall. intros l Hin. apply in_map_iff in Hin. destruct Hin as [l0 [E Hin]]. subst l.
-      apply space_line_not_table. apply Hbl. exact Hin.
-Qed.
-
-Lemma with_repeat_same : forall t, w_repeat t = 0 -> with_repeat t 0 = t.
-Proof. intros t H. unfold with_repeat. rewrite <- H. destruct t; reflexivity. Qed.
-
-Lemma frame_of_with_labels : forall t labels,
-    frame_of_wtable (with_labels t labels) = mkFrame labels (number_from 0 (map (map wcell) (w_rows t))).
-Proof. reflexivity. Qed.
-
-Theorem parse_table_render_lemma : forall sfx t ti core,
-    wtable_ok sfx t = true -> w_title t = Some ti -> render_title ti = addnl core ->
-    parse_table sfx false (map addnl (tll t core)) = ROk (table_of_wtable sfx t).
-Proof.
-  intros sfx t ti core H Eti Ec. pose proof H as Hok. unfold wtable_ok in H. rewrite Eti in H.
-  apply andb_true_iff in H. destruct H as [H Hs]. apply andb_true_iff in H. destruct H as [Ht Hb].
-  unfold parse_table, tll. cbn [map]. rewrite <- Ec. rewrite (parse_title_render_lemma ti Ht).
-  unfold table_of_wtable. rewrite Eti. cbn [option_map].
-  assert (Hbody : concat (map addnl (label_line t :: body_lines t 0 (w_rows t))) = render_body t)
-    by (symmetry; apply render_body_lines).
-  destruct sfx.
-  - (* ext *)
-    apply andb_true_iff in Hs. destruct Hs as [Hs Hj]. apply andb_true_iff in Hs. destruct Hs as [Hrep Hobj].
-    apply Nat.eqb_eq in Hrep. rewrite (with_repeat_same t Hrep) in Hb.
-    change (concat (addnl (label_line t) :: map addnl (body_lines t 0 (w_rows t))))
-      with (concat (map addnl (label_line t :: body_lines t 0 (w_rows t)))).
-    rewrite Hbody. destruct (sub_obj_render_body_lemma t Hb Hobj Hj) as [E W]. rewrite E.
-    rewrite (read_frame_render_lemma _ W). rewrite frame_of_with_labels. reflexivity.
-  - apply andb_true_iff in Hs. destruct Hs as [Hs Hj]. apply andb_true_iff in Hs. destruct Hs as [Hrep Hobj].
-    apply Nat.eqb_eq in Hrep. rewrite (with_repeat_same t Hrep) in Hb.
-    change (concat (addnl (label_line t) :: map addnl (body_lines t 0 (w_rows t))))
-      with (concat (map addnl (label_line t :: body_lines t 0 (w_rows t)))).
-    rewrite Hbody. destruct (sub_obj_render_body_lemma t Hb Hobj Hj) as [E W]. rewrite E.
-    rewrite (read_frame_render_lemma _ W). rewrite frame_of_with_labels. reflexivity.
-  - apply andb_true_iff in Hs. destruct Hs as [Hs Hj]. apply andb_true_iff in Hs. destruct Hs as [Hrep Hobj].
-    apply Nat.eqb_eq in Hrep. rewrite (with_repeat_same t Hrep) in Hb.
-    change (concat (addnl (label_line t) :: map addnl (body_lines t 0 (w_rows t))))
-      with (concat (map addnl (label_line t :: body_lines t 0 (w_rows t)))).
-    rewrite Hbody. destruct (sub_obj_render_body_lemma t Hb Hobj Hj) as [E W]. rewrite E.
-    rewrite (read_frame_render_lemma _ W). rewrite frame_of_with_labels. reflexivity.
-  - (* $TABLE: repeated label lines are removed first *)
-    apply andb_true_iff in Hs. destruct Hs as [Hl Hf].
-    destruct (wbody_parts _ Hb) as [_ [_ [_ [_ Hrows]]]].
-    cbn [with_repeat w_labels w_rows w_lastwide] in Hrows.
-    change (addnl (label_line t) :: map addnl (body_lines t 0 (w_rows t)))
-      with (map addnl (label_line t :: body_lines t 0 (w_rows t))).
-    rewrite (drop_headers_body t Hl).
-    + rewrite (read_frame_render_lemma _ Hb). reflexivity.
-    + intros r Hin. split; [apply Hrows; exact Hin|]. rewrite forallb_forall in Hf. apply Hf. exact Hin.
-Qed.
-
-Lemma sequence_map_ok {A B} (f : A -> rres B) (g : A -> B) : forall l,
-    (forall x, In x l -> f x = ROk (g x)) -> sequence (map f l) = ROk (map g l).
-Proof.
-  induction l as [|x l IH]; intros H; [reflexivity|]. cbn [map sequence].
-  rewrite (H x) by (left; reflexivity). rewrite IH by (intros y Hy; apply H; right; exact Hy). reflexivity.
-Qed.
-
-Lemma clean_concat_addnl : forall ls, (forall l, In l ls -> clean l) ->
-    existsb (N.eqb c_cr) (concat (map addnl ls)) = false /\ forallb no_nl ls = true.
-Proof.
-  induction ls as [|l ls IH]; intros H; [split; reflexivity|].
-  destruct (H l (or_introl eq_refl)) as [A B]. destruct IH as [I1 I2]; [intros l0 Hl0; apply H; right; exact Hl0|].
-  cbn [map concat forallb]. rewrite existsb_app', I1, A, I2. unfold addnl. rewrite existsb_app', B. split; reflexivity.
-Qed.
-
-Lemma file_structure : forall sfx ws, wfile_ok sfx ws = true ->
-    exists groups, groups <> [] /\ Forall group_ok groups /\
-      existsb (N.eqb c_cr) (render_wfile ws) = false /\ lines (render_wfile ws) = concat groups /\
-      sequence (map (parse_table sfx false) groups) = ROk (map (table_of_wtable sfx) ws).
-Proof.
-  intros sfx ws H. unfold wfile_ok in H. destruct ws as [|w0 ws0] eqn:Ews; [discriminate|]. rewrite <- Ews in *.
-  assert (Hall : forall t, In t ws -> wtable_ok sfx t = true) by (apply forallb_forall; exact H).
-  assert (Hstruct : forall t, In t ws -> exists g, render_wtable t = concat g /\ group_ok g /\
-             existsb (N.eqb c_cr) (concat g) = false /\ (forall rest, lines (concat g ++ rest) = g ++ lines rest) /\
-             parse_table sfx false g = ROk (table_of_wtable sfx t)).
-  { intros t Hin. destruct (table_structure sfx t (Hall t Hin)) as [ti [core [Eti [Hti [Ec [Er [Hc Hg]]]]]]].
-    exists (map addnl (tll t core)). destruct (clean_concat_addnl _ Hc) as [C1 C2].
-    split; [exact Er|]. split; [exact Hg|]. split; [exact C1|]. split.
-    - intros rest. apply lines_concat_addnl. exact C2.
-    - apply (parse_table_render_lemma sfx t ti core (Hall t Hin) Eti Ec). }
-  assert (Hfile : exists groups, Forall group_ok groups /\ length groups = length ws /\
-             existsb (N.eqb c_cr) (render_wfile ws) = false /\ lines (render_wfile ws) = concat groups /\
-             sequence (map (parse_table sfx false) groups) = ROk (map (table_of_wtable sfx) ws)).
-  { clear H Ews w0 ws0 Hall. induction ws as [|t ws IH].
-    - exists []. repeat split; try reflexivity. constructor.
-    - destruct (Hstruct t (or_introl eq_refl)) as [g [Er [Hg [Hc [Hl Hp]]]]].
-      destruct IH as [gs [E2 [E3 [E4 [E5 E6]]]]]; [intros t0 Ht0; apply Hstruct; right; exact Ht0|].
-      exists (g :: gs). unfold render_wfile in *. cbn [map concat length]. rewrite Er.
-      split; [constructor; assumption|]. split; [rewrite E3; reflexivity|].
-      split; [rewrite existsb_app', Hc, E4; reflexivity|].
-      split; [rewrite Hl, E5; reflexivity|].
-      cbn [sequence]. rewrite Hp, E6. reflexivity. }
-  destruct Hfile as [groups [G1 [G2 [G3 [G4 G5]]]]]. exists groups. split.
-  - intro E. subst groups. rewrite Ews in G2. discriminate.
-  - repeat split; assumption.
-Qed.
-
-Lemma group_lines_nonempty : forall groups, groups <> [] -> Forall group_ok groups -> concat groups <> [].
-Proof.
-  intros [|g gs] Hne H; [congruence|]. inversion H as [|? ? [T [Ls [Eg _]]] _]. subst. discriminate.
-Qed.
-
-Theorem parse_render_file_lemma : forall sfx ws, wfile_ok sfx ws = true ->
-    read_table_file sfx false (render_wfile ws) = ROk (map (table_of_wtable sfx) ws).
-Proof.
-  intros sfx ws H. destruct (file_structure sfx ws H) as [groups [Hne [G1 [G3 [G4 G5]]]]].
-  unfold read_table_file. destruct (render_wfile ws) as [|c0 txt] eqn:Et.
-  - exfalso. cbn [lines] in G4. apply (group_lines_nonempty groups Hne G1). symmetry. exact G4.
-  - rewrite <- Et in *. rewrite universal_newlines_id by exact G3. rewrite G4.
-    rewrite split_tables_groups; [exact G5|exact Hne|exact G1].
-Qed.
-
-Lemma universal_newlines_crlf : forall t, existsb (N.eqb c_cr) t = false -> universal_newlines (crlf t) = t.
-Proof.
-  induction t as [|c t IH]; intros H; [reflexivity|].
-  cbn [existsb] in H. apply orb_false_iff in H. destruct H as [Hc Ht].
-  unfold crlf. cbn [flat_map]. fold (crlf t). destruct (N.eqb_spec c c_nl) as [E|E].
-  - subst c. cbn [app universal_newlines]. rewrite N.eqb_refl. cbn [N.eqb c_nl c_cr Pos.eqb]. rewrite IH by exact Ht. reflexivity.
-  - cbn [app universal_newlines]. rewrite N.eqb_sym in Hc. rewrite Hc. rewrite IH by exact Ht. reflexivity.
-Qed.
-
-(* the same file written with CR LF line ends reads the same *)
-Theorem parse_render_crlf_lemma : forall sfx ws, wfile_ok sfx ws = true ->
-    read_table_file sfx false (crlf (render_wfile ws)) = ROk (map (table_of_wtable sfx) ws).
-Proof.
-  intros sfx ws H. destruct (file_structure sfx ws H) as [groups [Hne [G1 [G3 [G4 G5]]]]].
-  unfold read_table_file. destruct (crlf (render_wfile ws)) as [|c0 txt] eqn:Et.
-  - exfalso. destruct (render_wfile ws) as [|c t] eqn:Er.
-    + cbn [lines] in G4. apply (group_lines_nonempty groups Hne G1). symmetry. exact G4.
-    + unfold crlf in Et. cbn [flat_map] in Et. destruct (N.eqb c c_nl); discriminate.
-  - rewrite <- Et. rewrite universal_newlines_crlf by exact G3. rewrite G4.
-    rewrite split_tables_groups; [exact G5|exact Hne|exact G1].
-Qed.
-
 (* ================================================================================================ *)
 (** * the run's parameter estimates: designated row, fixed parameters dropped, model names *)
 
@@ -2527,7 +2349,7 @@ Definition fixed_names_of (fx : list (text * bool)) (pcols : list text) : list t
 
 Theorem pe_designated_lemma : forall t g pfix nm fpe cols rows sd,
     design_of t = None -> ext_data_frame (tb_frame t) = ROk g ->
-    g_has_iter0 g = true -> g_final_obj_eq_last g = true ->
+    g_final_obj_eq_last g = true ->
     parse_parameter_estimates [t] pfix nm = ROk (fpe, cols, rows, sd) ->
     exists fx,
       get_fixed_parameters g pfix nm = ROk fx /\
@@ -2536,11 +2358,11 @@ Theorem pe_designated_lemma : forall t g pfix nm fpe cols rows sd,
                              (drop_names (fixed_names_of fx (drop_first_last (f_cols g))) fe))
        \/ forallb (fun nc => is_nan (snd nc)) fpe = true).
 Proof.
-  intros t g pfix nm fpe cols rows sd Hd Hg H0 HF H.
+  intros t g pfix nm fpe cols rows sd Hd Hg HF H.
   unfold parse_parameter_estimates, est_tables in H. cbn [number_from filter snd] in H. rewrite Hd in H.
   cbn [rmap rbind fst snd] in H. unfold iter_frame in H. rewrite Hg in H. cbn [rbind] in H.
   destruct (has_str (col_cells g s_OBJ)); [discriminate|].
-  rewrite (iter_df_printed_iterations g H0 HF) in H. cbn [rbind fst snd] in H.
+  rewrite (iter_df_printed_iterations g HF) in H. cbn [rbind fst snd] in H.
   destruct (get_fixed_parameters g pfix nm) as [fx|k|] eqn:Efx; cbn [rbind] in H; try discriminate.
   exists fx. split; [reflexivity|].
   cbn [last_opt map existsb orb f_cols f_rows] in H.
@@ -2563,4 +2385,391 @@ Proof.
     exists fe. split; [reflexivity|].
     destruct (omega_sigma_stdcorr g) as [sdv|k|]; try discriminate;
       [|destruct k as [|p]; try discriminate; do 2 (destruct p; try discriminate)]; inversion H; reflexivity.
+Qed.
+
+(* ---- the lines of one table: title, label line (unless NOLABEL / NOHEADER), records ---- *)
+Definition blines (t : wtable) : list text :=
+  (if w_showlabels t then [label_line t] else []) ++ body_lines t 0 (w_rows t).
+Definition tll (t : wtable) (core : text) : list text := core :: blines t.
+
+Lemma body_lines_In : forall t rows i l, In l (body_lines t i rows) ->
+    (w_showlabels t = true /\ l = label_line t) \/ exists r, In r rows /\ l = render_cells (w_lastwide t) r.
+Proof.
+  intros t. induction rows as [|r rows IH]; intros i l H; [contradiction|].
+  cbn [body_lines] in H. apply in_app_or in H. destruct H as [H|H].
+  - destruct (repeat_here t i) eqn:E; [|contradiction]. destruct H as [H|[]]. left. split; [|symmetry; exact H].
+    unfold repeat_here in E. destruct (w_showlabels t); [reflexivity|discriminate].
+  - destruct H as [H|H].
+    + right. exists r. split; [left; reflexivity|symmetry; exact H].
+    + destruct (IH (S i) l H) as [A|[r0 [A B]]]; [left; exact A|right; exists r0; split; [right; exact A|exact B]].
+Qed.
+
+Lemma space_line_not_table : forall l, space_start l -> is_table_line (addnl l) = false.
+Proof. intros l [r E]. subst l. reflexivity. Qed.
+
+Lemma wbody_parts : forall t, wbody_ok t = true ->
+    w_showlabels t = true /\ w_repeat t = 0 /\ w_labels t <> [] /\ labels_ok (w_labels t) = true /\
+    (forall r, In r (w_rows t) -> length r = length (w_labels t) /\ row_ok (w_lastwide t) r = true).
+Proof.
+  intros t H. unfold wbody_ok in H. repeat (apply andb_true_iff in H; destruct H as [H ?]).
+  apply Nat.eqb_eq in H5. repeat split; try assumption.
+  - destruct (w_labels t); [discriminate|discriminate].
+  - rewrite forallb_forall in H1. specialize (H1 r H6). apply andb_true_iff in H1. apply Nat.eqb_eq. apply H1.
+  - rewrite forallb_forall in H1. specialize (H1 r H6). apply andb_true_iff in H1. apply H1.
+Qed.
+
+Lemma wrows_parts : forall t, wrows_ok t = true ->
+    w_showlabels t = false /\ w_labels t <> [] /\ w_rows t <> [] /\
+    (forall r, In r (w_rows t) -> length r = length (w_labels t) /\ row_ok (w_lastwide t) r = true) /\
+    forallb (col_homogeneous (w_rows t)) (seq 0 (length (w_labels t))) = true.
+Proof.
+  intros t H. unfold wrows_ok in H. repeat (apply andb_true_iff in H; destruct H as [H ?]).
+  apply negb_true_iff in H. repeat split; try assumption.
+  - destruct (w_labels t); [discriminate|discriminate].
+  - destruct (w_rows t); [discriminate|discriminate].
+  - rewrite forallb_forall in H1. specialize (H1 r H4). apply andb_true_iff in H1. apply Nat.eqb_eq. apply H1.
+  - rewrite forallb_forall in H1. specialize (H1 r H4). apply andb_true_iff in H1. apply H1.
+Qed.
+
+(* what every well-formed body provides, with or without label line *)
+Lemma body_facts : forall sfx nolabel t, wtable_body_ok sfx nolabel t = true ->
+    w_showlabels t = negb (nolabel_effective sfx nolabel) /\ w_labels t <> [] /\
+    (w_showlabels t = true -> labels_ok (w_labels t) = true) /\
+    (forall r, In r (w_rows t) -> length r = length (w_labels t) /\ row_ok (w_lastwide t) r = true).
+Proof.
+  intros sfx nolabel t H. unfold wtable_body_ok in H.
+  assert (G : wbody_ok (with_repeat t 0) = true ->
+              w_showlabels t = true /\ w_labels t <> [] /\ (w_showlabels t = true -> labels_ok (w_labels t) = true) /\
+              (forall r, In r (w_rows t) -> length r = length (w_labels t) /\ row_ok (w_lastwide t) r = true)).
+  { intros Hb. destruct (wbody_parts _ Hb) as [A [_ [B [C D]]]].
+    cbn [with_repeat w_showlabels w_labels w_rows w_lastwide] in A, B, C, D. repeat split; try assumption.
+    - intros _. exact C.
+    - apply D. exact H0.
+    - apply D. exact H0. }
+  destruct sfx; cbn [nolabel_effective negb].
+  1-3: apply andb_true_iff in H; destruct H as [H _]; apply andb_true_iff in H; destruct H as [H _];
+    apply andb_true_iff in H; destruct H as [H _]; apply (G H).
+  apply andb_true_iff in H. destruct H as [H _]. destruct nolabel; cbn [negb].
+  - destruct (wrows_parts t H) as [A [B [_ [D _]]]]. repeat split; try assumption.
+    + intros E. rewrite A in E. discriminate.
+    + apply D. exact H0.
+    + apply D. exact H0.
+  - apply andb_true_iff in H. destruct H as [H _]. apply (G H).
+Qed.
+
+(* no character on which str.splitlines would break a line *)
+Definition nosep (l : text) : bool := forallb (fun c => negb (is_splitlines_sep c)) l.
+Lemma nosep_app a b : nosep (a ++ b) = nosep a && nosep b.
+Proof. apply forallb_app'. Qed.
+Lemma nosep_spaces k : nosep (spaces k) = true.
+Proof. induction k as [|k IH]; [reflexivity|]. cbn [spaces repeat]. unfold nosep in *. cbn [forallb]. exact IH. Qed.
+Lemma good_tok_nosep t : good_tok t = true -> nosep t = true.
+Proof.
+  destruct t as [|c0 t0]; [discriminate|]. cbn [good_tok]. generalize (c0 :: t0). clear.
+  induction l as [|c t IH]; intros H; [reflexivity|]. cbn [forallb] in H. apply andb_true_iff in H. destruct H as [Hc Ht].
+  unfold nosep. cbn [forallb]. fold (nosep t). rewrite (IH Ht). unfold tokchar in Hc. apply andb_true_iff in Hc.
+  destruct Hc as [_ Hc]. rewrite Hc. reflexivity.
+Qed.
+Lemma nosep_clean l : nosep l = true -> clean l.
+Proof.
+  intros H. split.
+  - induction l as [|c l IH]; [reflexivity|]. unfold nosep in H. cbn [forallb] in H. apply andb_true_iff in H. destruct H as [Hc Hl].
+    cbn [no_nl forallb]. fold (no_nl l). rewrite (IH Hl). unfold is_splitlines_sep, c_nl in *. destruct (N.eqb_spec c 10); [subst c; discriminate|reflexivity].
+  - induction l as [|c l IH]; [reflexivity|]. unfold nosep in H. cbn [forallb] in H. apply andb_true_iff in H. destruct H as [Hc Hl].
+    cbn [existsb]. rewrite (IH Hl). unfold is_splitlines_sep, c_cr in *. destruct (N.eqb_spec 13 c); [subst c; discriminate|reflexivity].
+Qed.
+
+Lemma render_cells_nosep : forall lw cells, row_ok lw cells = true -> nosep (render_cells lw cells) = true.
+Proof.
+  intros lw. induction cells as [|c tl IH]; intros H; [reflexivity|].
+  destruct tl as [|c2 tl2].
+  - cbn [row_ok render_cells] in *. unfold rjust. rewrite nosep_app, nosep_spaces.
+    apply good_tok_nosep. apply (wnum_ok_good _ c H).
+  - remember (c2 :: tl2) as tl eqn:E.
+    assert (Hrow : row_ok lw (c :: tl) = wnum_ok 13 c && row_ok lw tl) by (subst tl; reflexivity).
+    rewrite Hrow in H. apply andb_true_iff in H. destruct H as [H1 H2].
+    assert (Hren : render_cells lw (c :: tl) = rjust 13 (wnum_text c) ++ render_cells lw tl) by (subst tl; reflexivity).
+    rewrite Hren. unfold rjust. rewrite !nosep_app, nosep_spaces, (IH H2).
+    rewrite (good_tok_nosep _ (proj1 (wnum_ok_good _ c H1))). reflexivity.
+Qed.
+
+Lemma render_labels_nosep : forall labels, labels_ok labels = true -> nosep (render_labels_aux labels) = true.
+Proof.
+  induction labels as [|l tl IH]; intros H; [reflexivity|].
+  destruct tl as [|l2 tl2].
+  - cbn [labels_ok render_labels_aux] in *. apply good_tok_nosep. exact H.
+  - remember (l2 :: tl2) as tl eqn:Etl.
+    assert (Hl : labels_ok (l :: tl) = good_tok l && (length l <? 13) && labels_ok tl) by (subst tl; reflexivity).
+    rewrite Hl in H. apply andb_true_iff in H. destruct H as [H Htl]. apply andb_true_iff in H. destruct H as [Hg _].
+    assert (Hren : render_labels_aux (l :: tl) = ljust 13 l ++ render_labels_aux tl) by (subst tl; reflexivity).
+    rewrite Hren. unfold ljust. rewrite !nosep_app, nosep_spaces, (IH Htl), (good_tok_nosep _ Hg). reflexivity.
+Qed.
+
+Lemma table_lines_facts : forall sfx nolabel t, wtable_body_ok sfx nolabel t = true ->
+    (if w_showlabels t then render_labels (w_labels t) else []) ++ render_rows t 0 (w_rows t) = concat (map addnl (blines t)) /\
+    (forall l, In l (blines t) -> nosep l = true /\ space_start l).
+Proof.
+  intros sfx nolabel t H. destruct (body_facts sfx nolabel t H) as [_ [Hne [Hlab Hrows]]].
+  assert (Hll : w_showlabels t = true -> nosep (label_line t) = true /\ space_start (label_line t)).
+  { intros Hs. split; [|unfold label_line; eexists; reflexivity].
+    unfold label_line. change (c_sp :: render_labels_aux (w_labels t)) with ([c_sp] ++ render_labels_aux (w_labels t)).
+    rewrite nosep_app, (render_labels_nosep _ (Hlab Hs)). reflexivity. }
+  split.
+  - unfold blines. rewrite render_rows_lines. destruct (w_showlabels t); [|reflexivity].
+    cbn [app map concat]. unfold render_labels, addnl, label_line. cbn [app]. rewrite <- !app_assoc. reflexivity.
+  - intros l Hin. unfold blines in Hin. apply in_app_or in Hin. destruct Hin as [Hin|Hin].
+    + destruct (w_showlabels t) eqn:Es; [|contradiction]. destruct Hin as [E|[]]. subst l. apply Hll. reflexivity.
+    + destruct (body_lines_In t _ _ l Hin) as [[Hs A]|[r [A B]]].
+      * subst l. apply Hll. exact Hs.
+      * subst l. destruct (Hrows r A) as [Hlen Hok]. split; [apply render_cells_nosep; exact Hok|].
+        destruct (render_cells_tokens (w_lastwide t) r Hok) as [_ [_ S]]. apply S.
+        intro E. subst r. cbn in Hlen. destruct (w_labels t); [congruence|discriminate].
+Qed.
+
+Lemma table_structure : forall sfx nolabel t, wtable_ok sfx nolabel t = true ->
+    exists ti core, w_title t = Some ti /\ wtitle_ok ti = true /\ render_title ti = addnl core /\
+      render_wtable t = concat (map addnl (tll t core)) /\
+      (forall l, In l (tll t core) -> clean l) /\
+      group_ok (map addnl (tll t core)).
+Proof.
+  intros sfx nolabel t H. unfold wtable_ok in H. apply andb_true_iff in H. destruct H as [Ht Hb].
+  destruct (w_title t) as [ti|] eqn:Eti; [|discriminate].
+  destruct (title_line_shape ti Ht) as [core [Ec [Cc Sc]]].
+  destruct (table_lines_facts sfx nolabel t Hb) as [Er Hbl].
+  exists ti, core. split; [reflexivity|]. split; [exact Ht|]. split; [exact Ec|].
+  split; [|split].
+  - unfold render_wtable. rewrite Eti, Ec. unfold tll. cbn [map concat]. rewrite <- Er. reflexivity.
+  - intros l [E|Hin]; [subst l; exact Cc|apply nosep_clean; apply Hbl; exact Hin].
+  - unfold group_ok, tll. cbn [map]. eexists; eexists. split; [reflexivity|]. split.
+    + unfold is_table_line, addnl. clear - Sc. revert Sc. generalize s_TABLE_NO_dot. intros p. revert core.
+      induction p as [|a p IH]; intros core Sc; [reflexivity|]. destruct core as [|c core]; [discriminate|].
+      cbn [starts_with app] in *. apply andb_true_iff in Sc. destruct Sc as [A B]. rewrite A. apply IH. exact B.
+    + apply Forall_forall. intros l Hin. apply in_map_iff in Hin. destruct Hin as [l0 [E Hin]]. subst l.
+      apply space_line_not_table. apply Hbl. exact Hin.
+Qed.
+
+Lemma with_repeat_same : forall t, w_repeat t = 0 -> with_repeat t 0 = t.
+Proof. intros t H. unfold with_repeat. rewrite <- H. destruct t; reflexivity. Qed.
+
+Lemma frame_of_with_labels : forall t labels,
+    frame_of_wtable (with_labels t labels) = mkFrame labels (number_from 0 (map (map wcell) (w_rows t))).
+Proof. reflexivity. Qed.
+
+Lemma body_lines_noshow : forall t rows i, w_showlabels t = false ->
+    body_lines t i rows = map (render_cells (w_lastwide t)) rows.
+Proof.
+  intros t rows. induction rows as [|r rows IH]; intros i H; [reflexivity|].
+  cbn [body_lines map]. unfold repeat_here. rewrite H. cbn [andb app]. rewrite IH by exact H. reflexivity.
+Qed.
+
+Lemma records_rows : forall lw rows,
+    (forall r, In r rows -> r <> [] /\ row_ok lw r = true) ->
+    records (concat (map addnl (map (render_cells lw) rows))) = map (map wnum_text) rows.
+Proof.
+  intros lw rows H. unfold records, addnl. rewrite records_lines.
+  - rewrite map_app, filter_app. cbn [map filter tokens]. rewrite app_nil_r. rewrite map_map.
+    induction rows as [|r rows IH]; [reflexivity|]. cbn [map filter].
+    destruct (H r (or_introl eq_refl)) as [Hne Hok]. destruct (render_cells_tokens lw r Hok) as [Ht _]. rewrite Ht.
+    destruct r as [|c r']; [congruence|]. cbn [map]. f_equal. apply IH. intros r0 Hin. apply H. right. exact Hin.
+  - apply forallb_forall. intros l Hin. apply in_map_iff in Hin. destruct Hin as [r [E Hin]]. subst l.
+    destruct (H r Hin) as [_ Hok]. destruct (render_cells_tokens lw r Hok) as [_ [[A _] _]]. exact A.
+Qed.
+
+Lemma filter_all {A} (p : A -> bool) : forall l, (forall x, In x l -> p x = true) -> filter p l = l.
+Proof.
+  induction l as [|x l IH]; intros H; [reflexivity|]. cbn [filter]. rewrite (H x) by (left; reflexivity).
+  rewrite IH by (intros y Hy; apply H; right; exact Hy). reflexivity.
+Qed.
+
+(* a body without label line, read with nolabel *)
+Lemma read_nolabel_body : forall t, wrows_ok t = true -> forallb first_cell_numeric (w_rows t) = true ->
+    read_frame_nolabel (concat (drop_repeated_headers (map addnl (blines t)))) = ROk (frame_of_wtable_nolabel t).
+Proof.
+  intros t H Hf. destruct (wrows_parts t H) as [Hs [Hne [Hnr [Hrows Hcols]]]].
+  unfold blines. rewrite Hs. cbn [app]. rewrite body_lines_noshow by exact Hs.
+  set (lw := w_lastwide t). set (rows := w_rows t) in *.
+  assert (Hrows' : forall r, In r rows -> r <> [] /\ row_ok lw r = true).
+  { intros r Hin. destruct (Hrows r Hin) as [A B]. split; [|exact B]. intro E. subst r. cbn in A. destruct (w_labels t); [congruence|discriminate]. }
+  assert (Hd : drop_repeated_headers (map addnl (map (render_cells lw) rows)) = map addnl (map (render_cells lw) rows)).
+  { destruct rows as [|r0 rest]; [reflexivity|]. cbn [map drop_repeated_headers]. f_equal.
+    apply filter_all. intros l Hin. apply in_map_iff in Hin. destruct Hin as [l0 [E Hin]]. subst l.
+    apply in_map_iff in Hin. destruct Hin as [r [E Hin]]. subst l0.
+    rewrite (not_header_like_row lw r); [reflexivity|apply Hrows; right; exact Hin|].
+    rewrite forallb_forall in Hf. apply Hf. right. exact Hin. }
+  rewrite Hd. unfold read_frame_nolabel. rewrite (records_rows lw rows Hrows').
+  destruct rows as [|r0 rest] eqn:Er; [congruence|]. cbn [map].
+  change (map wnum_text r0 :: map (map wnum_text) rest) with (map (map wnum_text) (r0 :: rest)).
+  rewrite map_length. destruct (Hrows r0 (or_introl eq_refl)) as [Hl0 _]. rewrite Hl0.
+  unfold frame_of_wtable_nolabel. fold rows. rewrite Er.
+  apply (frame_of_records_render _ lw (r0 :: rest)).
+  - intros r Hin. rewrite map_length, seq_length. apply Hrows. exact Hin.
+  - rewrite map_length, seq_length. exact Hcols.
+Qed.
+
+Theorem parse_table_body_lemma : forall sfx nolabel t,
+    wtable_body_ok sfx nolabel t = true ->
+    (match sfx with
+     | SOther => (if nolabel then read_frame_nolabel else read_frame) (concat (drop_repeated_headers (map addnl (blines t))))
+     | _ => read_frame (sub_obj (concat (map addnl (blines t))))
+     end) = ROk (frame_as_read sfx nolabel t).
+Proof.
+  intros sfx nolabel t H. pose proof (body_facts sfx nolabel t H) as [Hshow _].
+  unfold wtable_body_ok in H. unfold frame_as_read.
+  assert (Hlab : forall s, nolabel_effective s nolabel = false -> w_showlabels t = negb (nolabel_effective s nolabel) ->
+                 concat (map addnl (blines t)) = render_body t /\ blines t = label_line t :: body_lines t 0 (w_rows t)).
+  { intros s E Hs. rewrite E in Hs. cbn [negb] in Hs. unfold blines. rewrite Hs. cbn [app]. split; [|reflexivity].
+    symmetry. apply render_body_lines. }
+  destruct sfx; cbn [nolabel_effective] in *.
+  1-3: apply andb_true_iff in H; destruct H as [H Hj]; apply andb_true_iff in H; destruct H as [H Hobj];
+    apply andb_true_iff in H; destruct H as [Hb Hrep]; apply Nat.eqb_eq in Hrep;
+    rewrite (with_repeat_same t Hrep) in Hb;
+    destruct (Hlab SExt eq_refl Hshow) as [E _]; rewrite E;
+    destruct (sub_obj_render_body_lemma t Hb Hobj Hj) as [E2 W]; rewrite E2;
+    rewrite (read_frame_render_lemma _ W); rewrite frame_of_with_labels; reflexivity.
+  apply andb_true_iff in H. destruct H as [H Hf]. destruct nolabel.
+  - apply read_nolabel_body; assumption.
+  - apply andb_true_iff in H. destruct H as [Hb Hl].
+    destruct (Hlab SOther eq_refl Hshow) as [_ E]. rewrite E.
+    destruct (wbody_parts _ Hb) as [_ [_ [_ [_ Hrows]]]].
+    cbn [with_repeat w_labels w_rows w_lastwide] in Hrows.
+    change (map addnl (label_line t :: body_lines t 0 (w_rows t))) with (map addnl (label_line t :: body_lines t 0 (w_rows t))).
+    rewrite (drop_headers_body t Hl).
+    + rewrite (read_frame_render_lemma _ Hb). reflexivity.
+    + intros r Hin. split; [apply Hrows; exact Hin|]. rewrite forallb_forall in Hf. apply Hf. exact Hin.
+Qed.
+
+Theorem parse_table_render_lemma : forall sfx nolabel t ti core,
+    wtable_ok sfx nolabel t = true -> w_title t = Some ti -> render_title ti = addnl core ->
+    parse_table sfx false nolabel (map addnl (tll t core)) = ROk (table_of_wtable sfx nolabel t).
+Proof.
+  intros sfx nolabel t ti core H Eti Ec. unfold wtable_ok in H. rewrite Eti in H.
+  apply andb_true_iff in H. destruct H as [Ht Hb].
+  unfold parse_table, tll. cbn [map]. rewrite <- Ec. rewrite (parse_title_render_lemma ti Ht).
+  unfold table_of_wtable. rewrite Eti. cbn [option_map].
+  pose proof (parse_table_body_lemma sfx nolabel t Hb) as E.
+  destruct sfx; rewrite E; reflexivity.
+Qed.
+
+Lemma sequence_map_ok {A B} (f : A -> rres B) (g : A -> B) : forall l,
+    (forall x, In x l -> f x = ROk (g x)) -> sequence (map f l) = ROk (map g l).
+Proof.
+  induction l as [|x l IH]; intros H; [reflexivity|]. cbn [map sequence].
+  rewrite (H x) by (left; reflexivity). rewrite IH by (intros y Hy; apply H; right; exact Hy). reflexivity.
+Qed.
+
+Lemma clean_concat_addnl : forall ls, (forall l, In l ls -> clean l) ->
+    existsb (N.eqb c_cr) (concat (map addnl ls)) = false /\ forallb no_nl ls = true.
+Proof.
+  induction ls as [|l ls IH]; intros H; [split; reflexivity|].
+  destruct (H l (or_introl eq_refl)) as [A B]. destruct IH as [I1 I2]; [intros l0 Hl0; apply H; right; exact Hl0|].
+  cbn [map concat forallb]. rewrite existsb_app', I1, A, I2. unfold addnl. rewrite existsb_app', B. split; reflexivity.
+Qed.
+
+Lemma file_structure : forall sfx nolabel ws, wfile_ok sfx nolabel ws = true ->
+    exists groups, groups <> [] /\ Forall group_ok groups /\
+      existsb (N.eqb c_cr) (render_wfile ws) = false /\ lines (render_wfile ws) = concat groups /\
+      sequence (map (parse_table sfx false nolabel) groups) = ROk (map (table_of_wtable sfx nolabel) ws).
+Proof.
+  intros sfx nolabel ws H. unfold wfile_ok in H. destruct ws as [|w0 ws0] eqn:Ews; [discriminate|]. rewrite <- Ews in *.
+  assert (Hall : forall t, In t ws -> wtable_ok sfx nolabel t = true) by (apply forallb_forall; exact H).
+  assert (Hstruct : forall t, In t ws -> exists g, render_wtable t = concat g /\ group_ok g /\
+             existsb (N.eqb c_cr) (concat g) = false /\ (forall rest, lines (concat g ++ rest) = g ++ lines rest) /\
+             parse_table sfx false nolabel g = ROk (table_of_wtable sfx nolabel t)).
+  { intros t Hin. destruct (table_structure sfx nolabel t (Hall t Hin)) as [ti [core [Eti [Hti [Ec [Er [Hc Hg]]]]]]].
+    exists (map addnl (tll t core)). destruct (clean_concat_addnl _ Hc) as [C1 C2].
+    split; [exact Er|]. split; [exact Hg|]. split; [exact C1|]. split.
+    - intros rest. apply lines_concat_addnl. exact C2.
+    - apply (parse_table_render_lemma sfx nolabel t ti core (Hall t Hin) Eti Ec). }
+  assert (Hfile : exists groups, Forall group_ok groups /\ length groups = length ws /\
+             existsb (N.eqb c_cr) (render_wfile ws) = false /\ lines (render_wfile ws) = concat groups /\
+             sequence (map (parse_table sfx false nolabel) groups) = ROk (map (table_of_wtable sfx nolabel) ws)).
+  { clear H Ews w0 ws0 Hall. induction ws as [|t ws IH].
+    - exists []. repeat split; try reflexivity. constructor.
+    - destruct (Hstruct t (or_introl eq_refl)) as [g [Er [Hg [Hc [Hl Hp]]]]].
+      destruct IH as [gs [E2 [E3 [E4 [E5 E6]]]]]; [intros t0 Ht0; apply Hstruct; right; exact Ht0|].
+      exists (g :: gs). unfold render_wfile in *. cbn [map concat length]. rewrite Er.
+      split; [constructor; assumption|]. split; [rewrite E3; reflexivity|].
+      split; [rewrite existsb_app', Hc, E4; reflexivity|].
+      split; [rewrite Hl, E5; reflexivity|].
+      cbn [sequence]. rewrite Hp, E6. reflexivity. }
+  destruct Hfile as [groups [G1 [G2 [G3 [G4 G5]]]]]. exists groups. split.
+  - intro E. subst groups. rewrite Ews in G2. discriminate.
+  - repeat split; assumption.
+Qed.
+
+Lemma group_lines_nonempty : forall groups, groups <> [] -> Forall group_ok groups -> concat groups <> [].
+Proof.
+  intros [|g gs] Hne H; [congruence|]. inversion H as [|? ? [T [Ls [Eg _]]] _]. subst. discriminate.
+Qed.
+
+Theorem parse_render_file_lemma : forall sfx nolabel ws, wfile_ok sfx nolabel ws = true ->
+    read_table_file sfx false nolabel (render_wfile ws) = ROk (map (table_of_wtable sfx nolabel) ws).
+Proof.
+  intros sfx nolabel ws H. destruct (file_structure sfx nolabel ws H) as [groups [Hne [G1 [G3 [G4 G5]]]]].
+  unfold read_table_file. destruct (render_wfile ws) as [|c0 txt] eqn:Et.
+  - exfalso. cbn [lines] in G4. apply (group_lines_nonempty groups Hne G1). symmetry. exact G4.
+  - rewrite <- Et in *. rewrite universal_newlines_id by exact G3. rewrite G4.
+    rewrite split_tables_groups; [exact G5|exact Hne|exact G1].
+Qed.
+
+Lemma universal_newlines_crlf : forall t, existsb (N.eqb c_cr) t = false -> universal_newlines (crlf t) = t.
+Proof.
+  induction t as [|c t IH]; intros H; [reflexivity|].
+  cbn [existsb] in H. apply orb_false_iff in H. destruct H as [Hc Ht].
+  unfold crlf. cbn [flat_map]. fold (crlf t). destruct (N.eqb_spec c c_nl) as [E|E].
+  - subst c. cbn [app universal_newlines]. rewrite N.eqb_refl. cbn [N.eqb c_nl c_cr Pos.eqb]. rewrite IH by exact Ht. reflexivity.
+  - cbn [app universal_newlines]. rewrite N.eqb_sym in Hc. rewrite Hc. rewrite IH by exact Ht. reflexivity.
+Qed.
+
+Theorem parse_render_crlf_lemma : forall sfx nolabel ws, wfile_ok sfx nolabel ws = true ->
+    read_table_file sfx false nolabel (crlf (render_wfile ws)) = ROk (map (table_of_wtable sfx nolabel) ws).
+Proof.
+  intros sfx nolabel ws H. destruct (file_structure sfx nolabel ws H) as [groups [Hne [G1 [G3 [G4 G5]]]]].
+  unfold read_table_file. destruct (crlf (render_wfile ws)) as [|c0 txt] eqn:Et.
+  - exfalso. destruct (render_wfile ws) as [|c t] eqn:Er.
+    + cbn [lines] in G4. apply (group_lines_nonempty groups Hne G1). symmetry. exact G4.
+    + unfold crlf in Et. cbn [flat_map] in Et. destruct (N.eqb c c_nl); discriminate.
+  - rewrite <- Et. rewrite universal_newlines_crlf by exact G3. rewrite G4.
+    rewrite split_tables_groups; [exact G5|exact Hne|exact G1].
+Qed.
+
+(* ---- $TABLE ... NOTITLE / NOHEADER: one table without title line, read with notitle ---- *)
+Lemma splitlines_addnl : forall l rest, nosep l = true -> splitlines (addnl l ++ rest) = addnl l :: splitlines rest.
+Proof.
+  induction l as [|c l IH]; intros rest H; [reflexivity|].
+  unfold nosep in H. cbn [forallb] in H. apply andb_true_iff in H. destruct H as [Hc Hl]. apply negb_true_iff in Hc.
+  unfold addnl in *. cbn [app splitlines]. rewrite Hc. rewrite IH by exact Hl. reflexivity.
+Qed.
+
+Lemma splitlines_concat_addnl : forall ls, forallb nosep ls = true -> splitlines (concat (map addnl ls)) = map addnl ls.
+Proof.
+  induction ls as [|l ls IH]; intros H; [reflexivity|].
+  cbn [forallb] in H. apply andb_true_iff in H. destruct H as [Hl Hls].
+  cbn [map concat]. rewrite splitlines_addnl by exact Hl. rewrite IH by exact Hls. reflexivity.
+Qed.
+
+Theorem parse_render_notitle_lemma : forall sfx nolabel t, wtable_notitle_ok nolabel t = true ->
+    read_table_file sfx true nolabel (render_wtable t) = ROk [mkTable None (frame_as_read SOther nolabel t)].
+Proof.
+  intros sfx nolabel t H. unfold wtable_notitle_ok in H. apply andb_true_iff in H. destruct H as [Ht Hb].
+  destruct (w_title t) as [ti|] eqn:Eti; [discriminate|].
+  destruct (table_lines_facts SOther nolabel t Hb) as [Er Hbl].
+  assert (Etext : render_wtable t = concat (map addnl (blines t))).
+  { unfold render_wtable. rewrite Eti. cbn [app]. exact Er. }
+  assert (Hsep : forallb nosep (blines t) = true) by (apply forallb_forall; intros l Hin; apply Hbl; exact Hin).
+  assert (Hclean : forall l, In l (blines t) -> clean l) by (intros l Hin; apply nosep_clean; apply Hbl; exact Hin).
+  destruct (clean_concat_addnl _ Hclean) as [Hcr _].
+  assert (Hne : blines t <> []).
+  { destruct (body_facts SOther nolabel t Hb) as [Hs _]. unfold blines.
+    unfold wtable_body_ok in Hb. apply andb_true_iff in Hb. destruct Hb as [Hb _]. cbn [nolabel_effective] in Hs.
+    destruct nolabel; cbn [negb] in Hs; rewrite Hs.
+    - destruct (wrows_parts t Hb) as [_ [_ [Hnr _]]]. cbn [app]. destruct (w_rows t) as [|r rs]; [congruence|].
+      cbn [body_lines]. intro E. apply app_eq_nil in E. destruct E as [_ E]. discriminate.
+    - cbn [app]. discriminate. }
+  unfold read_table_file. rewrite Etext.
+  destruct (concat (map addnl (blines t))) as [|c0 txt] eqn:Ec.
+  - exfalso. destruct (blines t) as [|l ls]; [congruence|]. cbn [map concat] in Ec. unfold addnl in Ec.
+    apply app_eq_nil in Ec. destruct Ec as [Ec _]. apply app_eq_nil in Ec. destruct Ec as [_ Ec]. discriminate.
+  - rewrite <- Ec in *. rewrite universal_newlines_id by exact Hcr. rewrite splitlines_concat_addnl by exact Hsep.
+    unfold parse_table. pose proof (parse_table_body_lemma SOther nolabel t Hb) as E. cbn beta iota in E. rewrite E. reflexivity.
 Qed.
